@@ -148,6 +148,11 @@ pub trait Check: Sync {
     fn hang_is_violation(&self) -> bool {
         false
     }
+    /// case indices below this are run in every extra lane (chk/asan/...) regardless of the
+    /// lane's sampling stride
+    fn all_lanes_below(&self, _ctx: &Ctx) -> u64 {
+        0
+    }
     /// written-out description of case `idx` without running it (for crash witnesses)
     fn describe(&self, _ctx: &Ctx, _idx: u64) -> Value {
         Value::Null
